@@ -6,6 +6,7 @@ import contracts.omen_loader as oml
 PROP = Prop(
     'C10', 'The OMEN generator enumerates each level exactly',
     functions=[og.GSM + '._find_cp', og.GSM + '._format_guess', og.MCM + '._find_first_object',
+               og.MCM + '._increase_len_for_target', og.MCM + '._increase_ip_for_target',
                # 'for a given OMEN model': the model the generator enumerates is the one stored in the ruleset files
                oml.IO + ':_load_ngrams#ip', oml.IO + ':_load_ngrams#cp', oml.IO + ':_load_length'],
     lemmas=oml.lemmas,
@@ -23,12 +24,14 @@ PROP = Prop(
                      bound='20 models quick / 120 thorough, every level 0..7, every cut position',
                      clause='a generator restored from its pickle with an empty cache continues the same sequence')],
     assumptions=[
-        'GuessStructure.next_guess, _fill_out_parse_tree and MarkovCracker.next_guess (in-place backtracking over a list of mixed-type lists, shared memo table with '
+        'GuessStructure.next_guess, _fill_out_parse_tree and the loop of MarkovCracker.next_guess that drives the two cursors (in-place backtracking over a list of mixed-type lists, shared memo table with '
         'copy-on-store/lookup) are outside the verifiable subset: their exactness is decided only within the bounds of C10.bounded.enum',
         'dict lookups raise KeyError exactly on absent keys; lists are values',
+        'the cursor contracts assume every level 0..max_level is a key of grammar[ln] and grammar[ip] (what _load_length / _load_ngrams build) and a valid length cursor; '
+        'GuessStructure.__init__ is executed inline from its real source (straight-line assignments)',
     ],
     explanation='Deductive (all inputs): _find_cp returns the highest level in [bottom, min(top, max_level)] at which the prefix has transitions, with exactly that list, and '
                 '(None, None) exactly when there is none; _format_guess is the initial n-gram followed by the letters the parse tree points at; _find_first_object '
-                'returns the lowest populated level in 0..max_level inclusive. Bounded (labelled, not proved): exact enumeration per level and cache/history independence '
+                'returns the lowest populated level in 0..max_level inclusive; the two cursors (_increase_len_for_target, _increase_ip_for_target) move to the next (level, index) entry in level order whose level is at most min(max_level, budget), rebuild the GuessStructure for exactly the new cursors with the remaining level (the length step restarts the initial n-grams at (start_ip, 0)), and return False, changing nothing, exactly when no such entry is left. Bounded (labelled, not proved): exact enumeration per level and cache/history independence '
                 'against a brute-force enumerator; pickle round trip.',
 )
